@@ -238,7 +238,7 @@ func init() { register(c13{}) }
 func (c13) ID() string    { return "C13" }
 func (c13) Level() string { return "exploration" }
 func (c13) Rule() string {
-	return "case = (rotation interval, start offset inside the interval, time zone, 1-16 writer tasks with unique payloads of 1 B-64 KiB, a list of clock decisions biased to land just before/on/after interval boundaries or to idle across whole intervals, optional pre-existing file, stop/start cycles, scheduling tape) drawn by rapid from the seed and run on the simulated disk and clock, fault-free. Non-trivial = at least one interval boundary crossed while the appender was started AND at least one preemption (or, for single-writer cases, at least two boundaries); distinct = distinct context-switch trace hashes (clock decisions are part of the trace)."
+	return "case = (rotation interval, start offset inside the interval, time zone, 1-16 writer tasks (optionally spread over two live appender objects on the same file name) with unique payloads of 1 B-64 KiB and occasionally one of 300 000 bytes, a list of clock decisions biased to land just before/on/after interval boundaries or to idle across whole intervals, optional pre-existing file, stop/start cycles, scheduling tape) drawn by rapid from the seed and run on the simulated disk and clock, fault-free. Non-trivial = at least one interval boundary crossed while the appender was started AND at least one preemption (or, for single-writer cases, at least two boundaries); distinct = distinct context-switch trace hashes (clock decisions are part of the trace)."
 }
 func (c13) Decode(raw json.RawMessage) (any, error) {
 	var s RollScn
@@ -467,7 +467,7 @@ func init() { register(c19{}) }
 func (c19) ID() string    { return "C19" }
 func (c19) Level() string { return "fault_enumeration" }
 func (c19) Rule() string {
-	return "case = C13-style workload (1-4 writers, clock decisions around 3-6 boundaries) plus an ordered list of fault actions the scheduler places anywhere between the writers' steps and the clock decisions: directory renamed away / restored (open fails with ENOENT, held handles keep working), EMFILE / ENOSPC / EACCES on open; or a static failing target (file appender never started or already closed, console stream failing every write) driven through a synchronous logger. Fault placements are enumerated by the seeded scheduler tape (every position relative to boundaries and writes is reachable; sampled, not exhaustive). Non-trivial = a file creation actually failed at a boundary (fired > 0) while at least one write followed, or a static failing target received at least one call; distinct = distinct context-switch trace hashes (fault and clock actions are part of the trace)."
+	return "case = C13-style workload (1-4 writers, clock decisions around 3-6 boundaries) plus an ordered list of fault actions the scheduler places anywhere between the writers' steps and the clock decisions: directory renamed away / restored (open fails with ENOENT, held handles keep working), EMFILE / ENOSPC / EACCES on open; or a static failing target (file appender never started or already closed, console stream failing every write) driven through a synchronous logger. Fault placements are enumerated by the seeded scheduler tape (every position relative to boundaries and writes is reachable; sampled, not exhaustive). Non-trivial = a file creation actually failed at a boundary (fired > 0) while at least one write followed, or a static failing target received at least one call; distinct = distinct context-switch trace hashes (fault and clock actions are part of the trace). Since round 3: one third of the 10 min / 1 h cases run with MaxAge = 1 h and clock moves of several intervals (then the clock only moves between operations); a returned write that is in no file is looked up in the removal log of the simulated disk and may only have gone with a file last modified at least MaxAge before; in script mode (the enumerated grid, 854 placements incl. two appenders sharing the directory and hourly rotation with 1 h retention) every write is compared with the exact file a sequential per-appender model predicts."
 }
 func (c19) Decode(raw json.RawMessage) (any, error) {
 	var s RollScn
@@ -867,7 +867,7 @@ func init() { register(c14{}) }
 func (c14) ID() string    { return "C14" }
 func (c14) Level() string { return "exploration" }
 func (c14) Rule() string {
-	return "case = generated directory population (own rotated files '<name>.<14 digits>', prefix-sharing foreign files name.wf.<ts> / name.audit.<ts> / name.bak / name.1.gz / name.<13 or 15 digits>, unrelated files, sub-directories incl. one named like a rotated file) with modification times at least one hour on either side of now - maxAge, maxAge 1..720 h, optional sibling appender '<name>.wf' in the same directory, writers and clock decisions that trigger one or more rotations, optional ReadDir/Info/Remove failures; the real asynchronous cleanup goroutine runs as a simulated task. Non-trivial = a cleanup task ran with at least one expired own file and at least one expired foreign or fresh own file present; distinct = distinct context-switch trace hashes combined with the population."
+	return "case = generated directory population (own rotated files '<name>.<14 digits>', prefix-sharing foreign files name.wf.<ts> / name.audit.<ts> / name.bak / name.1.gz / name.<13 or 15 digits>, unrelated files, sub-directories incl. one named like a rotated file) with modification times at least one hour on either side of now - maxAge, maxAge 1..720 h, optional sibling appender '<name>.wf' in the same directory, writers and clock decisions that trigger one or more rotations, optional ReadDir/Info/Remove failures; the real asynchronous cleanup goroutine runs as a simulated task. Non-trivial = a cleanup task ran with at least one expired own file and at least one expired foreign or fresh own file present; distinct = distinct context-switch trace hashes combined with the population. Since round 3: near-miss foreign names (app-log.<ts>, appXlog.<ts>), one failing listing followed by clean sweeps (expired files must then go), and a daylight-saving zone with the offset change inside the retention window (MaxAge is elapsed hours)."
 }
 func (c14) Decode(raw json.RawMessage) (any, error) {
 	var s RollScn
